@@ -654,7 +654,10 @@ func (c *Conn) heartBeat(ctx context.Context) {
 		case error:
 			// TODO: should we do something here?
 		default:
-			panic(fmt.Sprintf("gocql: unknown frame in response to options: %T", resp))
+			// a well-formed frame that is no answer to OPTIONS: the peer does not speak
+			// the protocol the way we expect, give up on this connection
+			c.closeWithError(fmt.Errorf("gocql: unknown frame in response to options: %T", resp))
+			return
 		}
 	}
 }
